@@ -1,6 +1,7 @@
 """Rules shared by several properties (defined once in DESIGN §4): WRITERS."""
 from ..harness import where
 from ..mirutil import call_matches
+from ..anchors import is_trait_call
 
 
 def places_in_body(body):
@@ -98,6 +99,12 @@ def rule_writers(ctx, rule='WRITERS'):
             continue
         ident = (f.norm(b.impl_self_adt or ''), b.fn_name)
         okc = ident in allowed and b.impl_trait and f.norm(b.impl_trait).endswith('Basis') and not b.is_closure
+        if not okc and ident == ('basis::StandardBasis', 'set_sampled') and b.impl_trait and not b.is_closure:
+            ds = direct_sampler(ctx)        # set_sampled that captures, clamps and writes itself (decided by value)
+            if ds is not None and ds['ok']:
+                rep.ok(rule, 'caller-of-cell-write:%s' % b.path, where(b, s['bb']), ds['why'])
+                seen.add(ident)
+                continue
         seen.add(ident)
         good &= rep.check(okc, rule, 'caller-of-cell-write:%s' % b.path, where(b, s['bb']),
                           'allowed writer', 'a function other than StandardBasis::{set_value,reset_value} writes a '
@@ -369,3 +376,134 @@ def named_argument_wiring(ctx, rule, bodies, min_sites=0, what='the caller'):
                           'the literal gives field `%s` the value named `%s`, the name of another field of the same struct: the value '
                           'sits under the wrong name' % (wrong[0][0] if wrong else '', wrong[0][1] if wrong else ''))
     return n
+
+
+def direct_sampler(ctx):
+    """`StandardBasis::set_sampled` that does not go through `Basis::set_value` but captures, clamps and writes itself (the
+    shared value read once, used as the origin of the step and as the value to restore).  Decided by value, path by path:
+    exactly one cell write, to the handle's own cell; the undo field (the field of the handle set_sampled assigns the cell's
+    pre-write value to) is captured before the write and not touched after it; one draw gen_range(-1/2, 1/2) on the passed
+    generator; and on witness points covering every ordering of the sample against the bounds the stored value is
+    clamp(value + step*(max-min)*U, min, max).  Returns None if set_sampled delegates to set_value (the reference form), else
+    {'ok': bool, 'why': str, 'body': body}."""
+    if hasattr(ctx, '_direct_sampler'):
+        return ctx._direct_sampler
+    from fractions import Fraction
+    from ..celltables import bound_places, eval_num, recorder
+    from ..optmodel import _mentions_opaque
+    from ..sym import SYM, SymEx
+    f = ctx.facts
+    res = None
+    ssb = f.one(self_adt='basis::StandardBasis', trait='Basis', name='set_sampled')
+    if ssb is not None and not any(is_trait_call(t, 'Basis', 'set_value') for _, t in ssb.calls()):
+        res = {'ok': False, 'why': '', 'body': ssb}
+        names = [ssb.local_name(i) or 'a%d' % i for i in ssb.args()]
+        sx = SymEx(f, models=[recorder({'basis::SharedValue::set_value': 'cellwrite'})])
+        try:
+            outs = sx.run(ssb, [SYM('self')] + [SYM(nm) for nm in names[1:]])
+        except Exception as ex:      # noqa: BLE001
+            outs = []
+            res['why'] = 'set_sampled could not be evaluated (%s)' % str(ex)[:80]
+        if outs and not sx.aborted and len(names) == 3:
+            why = []
+            draws = {}
+
+            def walk(v):
+                if isinstance(v, tuple):
+                    if v[0] == 'app' and isinstance(v[1], str) and 'gen_range' in v[1]:
+                        draws[repr(v)] = v
+                    for x in v[1:]:
+                        if isinstance(x, (tuple, list)):
+                            walk(tuple(x) if isinstance(x, list) else x)
+
+            def repl(v, key):
+                if not isinstance(v, tuple):
+                    return v
+                if repr(v) == key:
+                    return SYM('U')
+                return tuple(repl(x, key) if isinstance(x, tuple) else ([repl(y, key) for y in x] if isinstance(x, list) else x)
+                             for x in v)
+            recs = []
+            for o in outs:
+                seq = []
+                for e in o.effects:
+                    if e[0] == ('rec', 'cellwrite'):
+                        seq.append(('w', e[1][0], e[1][1]))
+                        walk(e[1][1])
+                    elif isinstance(e[0], tuple) and e[0][0] == 'sym' and str(e[0][1]).startswith('self.') and e[0][1].count('.') == 1:
+                        seq.append(('f', e[0][1], e[1]))
+                for c in o.pc:
+                    if c[0] == 'cond':
+                        walk(c[1])
+                ws = [i for i, x in enumerate(seq) if x[0] == 'w']
+                if len(ws) != 1:
+                    why.append('a path writes the cell %d times' % len(ws))
+                    continue
+                if seq[ws[0]][1] != SYM('self.value'):
+                    why.append('a path writes another cell')
+                caps = [x[1] for x in seq[:ws[0]] if x[0] == 'f' and x[2] == SYM('self.value.value')]
+                late = [x[1] for x in seq[ws[0] + 1:] if x[0] == 'f']
+                # (the last assignment of each captured field before the write must be the capture)
+                lastv = {}
+                for x in seq[:ws[0]]:
+                    if x[0] == 'f':
+                        lastv[x[1]] = x[2]
+                caps = [c for c in caps if lastv.get(c) == SYM('self.value.value')]
+                recs.append((o, seq[ws[0]][2], set(caps), late))
+            undo = None
+            for _o, _v, caps, _l in recs:
+                undo = caps if undo is None else (undo & caps)
+            if not undo:
+                why.append('no field of the handle holds the cell\'s pre-write value on every path')
+            elif any(set(l) & undo for _o, _v, _c, l in recs):
+                why.append('the undo field is assigned again after the cell write')
+            if len(draws) != 1:
+                why.append('set_sampled draws %d random numbers' % len(draws))
+            else:
+                key, d = list(draws.items())[0]
+                nums = sorted(a[1] for a in d[2] if isinstance(a, tuple) and a[0] == 'num')
+                if nums != [Fraction(-1, 2), Fraction(1, 2)] or not any(a == SYM(names[1]) for a in d[2]):
+                    why.append('the draw is not gen_range(-0.5, 0.5) on the passed generator')
+                bp = bound_places(f) or ('self.min', 'self.max')
+                pts = [(5, 1, 0, 10, Fraction(-3, 5)), (5, 1, 0, 10, Fraction(-1, 2)), (5, 1, 0, 10, Fraction(0)),
+                       (5, 1, 0, 10, Fraction(1, 2)), (5, 1, 0, 10, Fraction(3, 5)), (5, 2, 0, 10, Fraction(-1, 2)),
+                       (3, 1, 3, 3, Fraction(1, 4)), (9, Fraction(1, 2), 0, 10, Fraction(1, 2))]
+                for cell, step, lo, hi, u in pts:
+                    env = {'self.value.value': Fraction(cell), names[2]: Fraction(step), bp[0]: Fraction(lo), bp[1]: Fraction(hi),
+                           'U': u}
+                    for fld in (undo or ()):
+                        env[fld] = Fraction(cell)
+                    x = Fraction(cell) + Fraction(step) * (Fraction(hi) - Fraction(lo)) * u
+                    want = min(max(x, Fraction(lo)), Fraction(hi))
+                    got, bad = set(), False
+                    for o, val, _c, _l in recs:
+                        feas = True
+                        for c in o.pc:
+                            if c[0] != 'cond':
+                                continue
+                            try:
+                                if bool(eval_num(repl(c[1], key), env)) != c[2]:
+                                    feas = False
+                                    break
+                            except (KeyError, ValueError, ZeroDivisionError):
+                                if _mentions_opaque(c[1]) and 'self.' not in repr(c[1]):
+                                    continue
+                                bad = True
+                        if feas:
+                            try:
+                                got.add(eval_num(repl(val, key), env))
+                            except (KeyError, ValueError, ZeroDivisionError):
+                                bad = True
+                    if bad or got != {want}:
+                        why.append('for value=%s step=%s bounds=[%s,%s] U=%s set_sampled stores %s, expected clamp(value + '
+                                   'step*(max-min)*U) = %s' % (cell, step, lo, hi, u, 'something undecided' if bad else sorted(got), want))
+                        break
+            res['ok'] = not why
+            res['why'] = '; '.join(why) if why else ('set_sampled captures the pre-write value in %s, draws once and stores '
+                                                     'clamp(value + step*(max-min)*U) in its own cell on every path (%d paths, 8 '
+                                                     'witness points)' % (sorted(undo), len(outs)))
+            res['undo'] = sorted(undo) if undo else []
+        elif not res['why']:
+            res['why'] = 'set_sampled is not loop-free'
+    ctx._direct_sampler = res
+    return res
